@@ -761,6 +761,10 @@ func checkC07Free(c any) *ev.Verdict {
 	v := &ev.Verdict{}
 	scriptLabels(ec, v)
 	b := runBoth(ec)
+	if b.refusedSpelling {
+		v.Skipped = "a number written with leading zeros was refused as ill-formed (allowed)"
+		return v
+	}
 	outcomeLabel(b.real, v)
 	if b.real.Panic != "" || b.real.ParseErrors > 0 {
 		v.Skipped = "panic or parse error"
@@ -806,6 +810,9 @@ func init() {
 		Assumptions: []string{"save reservations enter B' as a lower balance (visible balance rule of C08)"},
 	})
 	Generators["C09"] = func(t *rapid.T, tier string) any {
+		if gen.Chance(t, "c09.wide", 5) {
+			return wideSplitCase(t)
+		}
 		k := gen.DefaultKnobs()
 		k.MinStmts = 2
 		k.MaxStmts = 5
